@@ -18,11 +18,14 @@ def shape(node, depth=0):
 
 
 def one_case(ctx, i, prof, kind, layout_fuzz=False, required_tags=None,
-             pop_fn=None):
+             pop_fn=None, prog_fn=None):
     rng = ctx.rng(kind, i)
     pop = (pop_fn or gen.random_population)(rng)
     try:
-        prog, tags, decisions = gen.generate(rng, pop, prof)
+        if prog_fn is not None:
+            prog, tags, decisions = prog_fn(rng, pop)
+        else:
+            prog, tags, decisions = gen.generate(rng, pop, prof)
     except gen.TooBig:
         ctx.count('generator_too_big')
         return None
